@@ -7,7 +7,7 @@ the logged heads and chains; the logged head vectors are validated against the m
 Real timers, goroutine scheduling, the 2-period sync-restart rule and gRPC are exercised, not proved.
 """
 import json, os, subprocess, concurrent.futures
-from .. import core
+from .. import core, netreshare
 
 ID = "C05"
 MODULE = "DrandProofs.C05"
@@ -381,6 +381,11 @@ def explore(ctx, res):
                 c = json.load(open(os.path.join(cdir, f)))
                 c["name"] = "corpus:" + f
                 corpus.append(c)
+    if ctx.get("replay") and "init" in json.load(open(ctx["replay"])):
+        # a resharing / index-gap / store-fault script of engine `net` (vlib/netreshare.py)
+        cov, _ = netreshare.replay_part(ctx, res, json.load(open(ctx["replay"])))
+        res.cov.update(evaluations=sum(cov["ops"].values()), rule="replay of one reshare script", distribution={"reshare": cov})
+        return
     if ctx.get("replay"):
         rp = json.load(open(ctx["replay"]))
         plan = [("quick", [dict(rp["case"], ops=rp["ops"])])]
@@ -465,3 +470,14 @@ def explore(ctx, res):
                         "rate": round(nonrepro / max(1, total_attempts), 4),
                         "details": [{"case": r["case"], "failed": r["failed_attempts"]} for r in results if r["failed_attempts"] and not r["reproducible"]][:10]}
     res.cov["model_exact_match"] = {"logged_lines": lines, "lines_where_heads_equal_model": exact}
+    # liveness ACROSS A RESHARING, with index gaps and with a failing store (engine `net`, second part)
+    if not ctx.get("replay"):
+        rcov, rres = netreshare.explore_part(ID, ctx, res)
+        res.cov["evaluations"] += sum(rcov["ops"].values())
+        res.cov["distinct_nontrivial"] += sum(1 for r in rres if r.get("res"))
+        res.cov["traces_validated_against_impl"] += rcov["validated_against_model"]
+        res.cov["distribution"]["reshare"] = rcov
+        res.cov["rule"] += ("; plus resharing / index-gap / store-fault scripts (vlib/netreshare.py): fewer remainers than the old threshold with joiners needed and leavers "
+                            "stopped by StopAt, a first group with a hole in its share indices, one failing or cancelled base-store Put with exactly a threshold up and "
+                            "with a node to spare (chained and unchained); thorough: every family on every scheme plus random resharings. Liveness rule = C05's, with the "
+                            "membership and threshold of the group in force at each round")
